@@ -288,9 +288,8 @@ def r4_depth(run, F):
                         amp = True
             if not amp:
                 continue
-            for x in walk(lp):
-                if x.get("k") == "AssignOp" and x.get("op") in ("AddAssign", "Add") and hirq.local_name_of(x["lhs"]):
-                    counters[x["lhs"]["lid"]] = hirq.local_name_of(x["lhs"])
+            for l, x in hirq.increments(lp):
+                counters[l["lid"]] = l.get("res") or hirq.local_name_of(l)
         for lid, name in counters.items():
             n += 1
             flows = False
@@ -318,6 +317,8 @@ def r4_depth(run, F):
         site = 0
         for x in walk(body["hir"]):
             c_ = hirq.unwrap_trivial(x["cond"]) if x.get("k") == "If" else {}
+            if c_.get("k") == "Binary" and c_.get("op") in ("Lt", "Le") and str(hirq.unwrap_trivial(c_["lhs"]).get("res", "")).endswith("MAX_ADDRESS_DEPTH"):
+                c_ = dict(c_, op={"Lt": "Gt", "Le": "Ge"}[c_["op"]], lhs=c_["rhs"], rhs=c_["lhs"])      # `MAX < counter` is `counter > MAX`
             if c_.get("k") == "Binary" and c_.get("op") in ("Gt", "Ge") and str(hirq.unwrap_trivial(c_["rhs"]).get("res", "")).endswith("MAX_ADDRESS_DEPTH"):
                 l_ = hirq.unwrap_trivial(c_["lhs"])
                 k_ = 0
